@@ -644,3 +644,8 @@ mod accept_hx {
 // C14 per-peer policy assignments (unit u6)
 #[allow(dead_code)]
 mod c14 { include!(concat!(env!("VERIF_HX_DIR"), "/daemon/event_policy_hx.rs")); }
+
+// C16, an OPEN from the wire through codec, FSM and negotiation
+mod open_hx {
+    include!(concat!(env!("VERIF_HX_DIR"), "/daemon/event_open_hx.rs"));
+}
